@@ -252,9 +252,11 @@ const (
 	vf15Reject    = "reject"          // server holds a newer key; its public certificate covers only the public name
 	vf15RejectCB  = "reject-callback" // same, client verifies the public certificate through EncryptedClientHelloRejectionVerify
 	vf15RejectSAN = "reject-both-san" // same, but the public certificate also covers the secret name
+	vf15RejectHRR = "reject-hrr"      // like reject-both-san, and the server first sends a HelloRetryRequest (not in the
+	// property's quantifier: only the name hiding, the first hello and the outcome are checked)
 )
 
-var vf15Modes = []string{vf15Accept, vf15AcceptHRR, vf15Reject, vf15RejectCB, vf15RejectSAN}
+var vf15Modes = []string{vf15Accept, vf15AcceptHRR, vf15Reject, vf15RejectCB, vf15RejectSAN, vf15RejectHRR}
 
 type vf15Case struct {
 	Ident      vf15Ident
@@ -292,7 +294,7 @@ func vf15GenLabel(rt *rapid.T, label string, min, max int) string {
 func vf15GenCase(rt *rapid.T, idents []vf15Ident) vf15Case {
 	c := vf15Case{}
 	c.Ident = idents[rapid.IntRange(0, len(idents)-1).Draw(rt, "ident")]
-	c.Mode = vf15Modes[[]int{0, 0, 1, 1, 2, 3, 4}[rapid.IntRange(0, 6).Draw(rt, "mode")]]
+	c.Mode = vf15Modes[[]int{0, 0, 1, 1, 1, 2, 2, 3, 4, 5}[rapid.IntRange(0, 9).Draw(rt, "mode")]]
 	c.Seed = rapid.Uint64().Draw(rt, "seed")
 	c.SecretRand = vf15GenLabel(rt, "secret", 12, 40)
 	switch rapid.IntRange(0, 3).Draw(rt, "secretShape") {
@@ -373,6 +375,19 @@ func vf15Run(st *vfStats, t vfFataler, c vf15Case) {
 		t.Helper()
 		st.Violation(t, "%s: %s", c.String(), fmt.Sprintf(format, a...))
 	}
+	st.Class("id:" + c.Ident.Name)
+	st.Class("mode:" + c.Mode)
+	if c.Leading != "" {
+		st.Class("list-leading:" + c.Leading)
+	}
+	switch {
+	case int(c.MaxNameLen) < len(c.Secret):
+		st.Class("maxname<len(name)")
+	case int(c.MaxNameLen) == len(c.Secret):
+		st.Class("maxname==len(name)")
+	default:
+		st.Class("maxname>len(name)")
+	}
 
 	// the config the client knows, and what the server holds
 	cfg := vf15NewECHConfig(c.Seed, "client", c.ConfigID, c.Suites, c.MaxNameLen, c.Public)
@@ -421,7 +436,7 @@ func vf15Run(st *vfStats, t vfFataler, c vf15Case) {
 
 	secretLeaf := vfLeaf(vfLeafSpec{Names: []string{c.Secret}})
 	publicNames := []string{c.Public}
-	if c.Mode == vf15RejectSAN {
+	if c.Mode == vf15RejectSAN || c.Mode == vf15RejectHRR {
 		publicNames = []string{c.Public, c.Secret}
 	}
 	publicLeaf := vfLeaf(vfLeafSpec{Names: publicNames})
@@ -457,7 +472,8 @@ func vf15Run(st *vfStats, t vfFataler, c vf15Case) {
 		res.serverSawSNI = append(res.serverSawSNI, chi.ServerName)
 		return nil, nil
 	}
-	if c.Mode == vf15AcceptHRR {
+	hrr := c.Mode == vf15AcceptHRR || c.Mode == vf15RejectHRR
+	if hrr {
 		g, err := vf15HRRGroup(c.Ident, ccfg)
 		if err != nil {
 			fail("cannot determine a HelloRetryRequest group: %v", err)
@@ -493,6 +509,9 @@ func vf15Run(st *vfStats, t vfFataler, c vf15Case) {
 		}
 		if sni, ok := h.SNI(); !ok || sni != c.Public {
 			fail("outer hello %d: SNI %q (present=%v), want the public name %q", i+1, sni, ok, c.Public)
+		}
+		if i == 1 && c.Mode == vf15RejectHRR {
+			break // what the second outer hello of a *rejected* offer carries is not part of the property
 		}
 		e := h.ECH()
 		if e == nil || e.Type != 0 {
@@ -579,7 +598,7 @@ func vf15Run(st *vfStats, t vfFataler, c vf15Case) {
 		}
 	}
 	wantHellos := 1
-	if c.Mode == vf15AcceptHRR {
+	if hrr {
 		wantHellos = 2
 	}
 	if len(hellos) != wantHellos {
@@ -642,6 +661,9 @@ func vf15Run(st *vfStats, t vfFataler, c vf15Case) {
 		if !bytes.Equal(rej.RetryConfigList, wantRetry) {
 			fail("RetryConfigList\n got  %x\n want %x", rej.RetryConfigList, wantRetry)
 		}
+		if hrr && !pair.Cli.didHRR {
+			fail("server was configured to force a HelloRetryRequest but none happened")
+		}
 		if c.Mode == vf15RejectCB && cbCalled != 1 {
 			fail("EncryptedClientHelloRejectionVerify called %d times", cbCalled)
 		}
@@ -658,20 +680,7 @@ func vf15Run(st *vfStats, t vfFataler, c vf15Case) {
 		}
 	}
 
-	st.Class("id:" + c.Ident.Name)
-	st.Class("mode:" + c.Mode)
 	st.Class(fmt.Sprintf("aead-picked:%d", firstECH.AEAD))
-	if c.Leading != "" {
-		st.Class("list-leading:" + c.Leading)
-	}
-	switch {
-	case int(c.MaxNameLen) < len(c.Secret):
-		st.Class("maxname<len(name)")
-	case int(c.MaxNameLen) == len(c.Secret):
-		st.Class("maxname==len(name)")
-	default:
-		st.Class("maxname>len(name)")
-	}
 	st.NonTrivial(fmt.Sprintf("%s|%s|%v|%d|%s", c.Ident.Name, c.Mode, c.Suites, c.MaxNameLen, c.Leading))
 	st.Sample(map[string]any{"case": c.String(), "hellos": len(hellos), "client_err": fmt.Sprint(res.cerr), "server_saw": res.serverSawSNI})
 }
